@@ -106,8 +106,8 @@ sharness! {
         let sel: u8 = kani::any();
         let send: u64 = kani::any();
         let recv: u64 = kani::any();
-        let mut run = |b0: u8, b12: u8, b14: u8, b15: u8| {
-            p.set_hdr(b0, b12, b14, b15);
+        let mut run = |b0: u8, b12: u8, b14: u8, b15: u8, last: u8| {
+            p.set_hdr(b0, b12, b14, b15, last);
             accept_body(&mut src, &pre, p.bytes(), send, recv);
         };
         for_v5hdr!(all, sel, run);
@@ -197,13 +197,13 @@ sharness! {
         let s2: u8 = kani::any();
         let t: [u64; 4] = kani::any();
         let mut st = ReplayState::default();
-        let mut run1 = |b0: u8, b12: u8, b14: u8, b15: u8| {
-            p1.set_hdr(b0, b12, b14, b15);
+        let mut run1 = |b0: u8, b12: u8, b14: u8, b15: u8, last: u8| {
+            p1.set_hdr(b0, b12, b14, b15, last);
             replay_first(&mut src, &mut st, p1.bytes(), t);
         };
         for_v5hdr!(quick, s1, run1);
-        let mut run2 = |b0: u8, b12: u8, b14: u8, b15: u8| {
-            p2.set_hdr(b0, b12, b14, b15);
+        let mut run2 = |b0: u8, b12: u8, b14: u8, b15: u8, last: u8| {
+            p2.set_hdr(b0, b12, b14, b15, last);
             replay_second(&mut src, &pre, &st, p1.bytes(), p2.bytes(), t);
         };
         for_v5hdr!(quick, s2, run2);
